@@ -169,12 +169,13 @@ fn pick_victim(ctx: &mut Ctx) -> Option<usize> {
     if n == 0 {
         return None;
     }
-    if ctx.rng.chance(3, 5) {
+    let i = if ctx.rng.chance(3, 5) {
         // the newest block: most likely the last allocation
-        Some(n - 1 - ctx.rng.below(n.min(2)))
+        n - 1 - ctx.rng.below(n.min(2))
     } else {
-        Some(ctx.rng.below(n))
-    }
+        ctx.rng.below(n)
+    };
+    if ctx.sh.blocks[i].ro { None } else { Some(i) }
 }
 
 pub fn level<'a, A, S>(scope: &mut BumpScope<'a, A, S>, ctx: &mut Ctx, depth: u32, mut quota: usize)
@@ -556,6 +557,7 @@ where
     // the block that ends exactly at the position (upward) / starts at it (downward)
     let found = ctx.sh.blocks.iter().position(|b| {
         b.raw_api
+            && !b.ro
             && b.len > 0
             && b.len == b.layout.size()
             && b.len % S::MIN_ALIGN == 0
